@@ -24,6 +24,8 @@ pub const SITE_BUILD_NEIGHBOUR_LOOP: u32 = 1;
 pub const SITE_WITH_FACES_VERTEX_LOOP: u32 = 2;
 pub const SITE_WITH_FACES_SORT_LOOP: u32 = 3;
 pub const SITE_DECOMPOSE_NEXT: u32 = 4;
+/// One iteration of the ring search in `Space::knn`.
+pub const SITE_KNN_RING: u32 = 5;
 
 /// Register the callback invoked at scheduling points inside a cell.
 pub fn set_sched_point(f: Option<fn(u32)>) {
